@@ -11,7 +11,7 @@ import (
 var intrinsicNames = map[string]bool{
 	"vU8": true, "vU16": true, "vU32": true, "vU64": true, "vBool": true,
 	"vassume": true, "vcheck": true, "vreach": true, "vpanics": true, "vpure": true,
-	"vmaporder": true, "vnote": true, "vsymtype": true, "vconcrete": true, "vconcreteInt": true, "vcheckEqInt": true, "vclockbound": true, "vreps": true, "vmerge": true,
+	"vmaporder": true, "vnote": true, "vsymtype": true, "vconcrete": true, "vconcreteInt": true, "vcheckEqInt": true, "vclockbound": true, "vreps": true, "vthreads": true, "vmerge": true,
 }
 
 func isIntrinsicName(fn *ssa.Function) bool {
@@ -421,11 +421,17 @@ func (e *Engine) mutexOp(name string, p Value) Value {
 			panic(goPanic{"deadlock: sync.Mutex locked twice on one path"})
 		}
 		l.v = OpaqueV{what: "mutex-locked"}
+		if e.thr != nil {
+			e.thr.held[l] = true
+		}
 	case "Unlock":
 		if st.what != "mutex-locked" {
 			panic(goPanic{"sync: unlock of unlocked mutex"})
 		}
 		l.v = OpaqueV{what: "mutex"}
+		if e.thr != nil {
+			delete(e.thr.held, l)
+		}
 	}
 	return nil
 }
@@ -482,6 +488,18 @@ func (e *Engine) harnessIntrinsic(name string, args []Value, guard T, site *ssa.
 		return nil
 	case "vreps":
 		return bv(1, 64)
+	case "vthreads":
+		// vthreads(l string, f1, f2 func()): thread-modular race analysis of two closures
+		races := e.runThreads([]ClosureV{args[1].(ClosureV), args[2].(ClosureV)})
+		ob := Obligation{Label: lbl(0), PathLen: len(e.taken), Verdict: "unsat"}
+		if len(races) > 0 {
+			ob.Verdict = "sat"
+			if e.s.check() != "unsat" {
+				e.recordViolation(lbl(0), "race", strings.Join(races, "; "))
+			}
+		}
+		e.res.Obligations = append(e.res.Obligations, ob)
+		return nil
 	case "vclockbound":
 		// all later clock readings stay within d nanoseconds of the first one
 		e.clockMax = args[0].(T)
